@@ -91,15 +91,17 @@ LexData(src, st) ==
      ELSE IF PrefixAt(src, st, q, OpenTag) THEN Goto(s2, "tagopen")
      ELSE Goto(s2, "printopen")
 
-(* tryLexOperator: the matched operator, or <<>> *)
+(* tryLexOperator: the operator recognised at the cursor, or <<>>.  The alternatives of the matcher are tried in order;
+   an alternative is passed over when it is really the start of a delimiter ("%}", "-}}", "-%}") or runs into a name
+   ("include", "is_x"; "not inactive" is the operator "not" followed by a name, not "not in") *)
+OpAcceptable(src, st, op) ==
+  LET after == st.pos + Len(op) IN
+  /\ ~(op = <<37>> /\ At(src, st, st.pos + 1) = 125)
+  /\ ~(op = <<45>> /\ (PrefixAt(src, st, st.pos + 1, ClosePrint) \/ PrefixAt(src, st, st.pos + 1, CloseTag)))
+  /\ ~(IsAlphaB(op[Len(op)]) /\ IsNameB(At(src, st, after)))
 OperatorHere(src, st) ==
-  LET op == MatchOp(src, st)
-      after == st.pos + Len(op) IN
-  IF op = <<>> THEN <<>>
-  ELSE IF op = <<37>> /\ At(src, st, st.pos + 1) = 125 THEN <<>>                                   \* "%}" closes the tag
-  ELSE IF op = <<45>> /\ (PrefixAt(src, st, st.pos + 1, ClosePrint) \/ PrefixAt(src, st, st.pos + 1, CloseTag)) THEN <<>>   \* "-}}" "-%}"
-  ELSE IF IsAlphaB(op[Len(op)]) /\ IsNameB(At(src, st, after)) THEN <<>>                          \* "include", "is_x", "order"
-  ELSE op
+  LET idx == {q \in 1..Len(OpOrder) : PrefixAt(src, st, st.pos, OpOrder[q]) /\ OpAcceptable(src, st, OpOrder[q])} IN
+  IF idx = {} THEN <<>> ELSE OpOrder[CHOOSE q \in idx : \A r \in idx : q <= r]
 
 LexExpression(src, st) ==
   LET op == OperatorHere(src, st)
